@@ -429,7 +429,43 @@ func checkC09(w *World) {
 	wantTok := map[string]string{"StartElement": "Element", "CharData": "CharData", "Comment": "Comment", "ProcInst": "ProcInst"}
 	exclusive := []string{"Element", "Attribute", "Namespace", "CharData", "Comment", "ProcInst"}
 	found := map[string]bool{}
-	allInstrs(pull, func(in ssa.Instruction) {
+	// the adapter = Pull and the functions of the package it was split into; guards of a helper with a single call
+	// site include what is known at that call
+	var scope []*ssa.Function
+	scopeSet := map[*ssa.Function]bool{}
+	for g := range staticReach(pull, func(x *ssa.Function) bool { return fnPkgKey(x) == "parser" }) {
+		if fnPkgKey(g) == "parser" {
+			scope = append(scope, g)
+			scopeSet[g] = true
+		}
+	}
+	sortFuncs(scope)
+	allScope := func(visit func(ssa.Instruction)) {
+		for _, g := range scope {
+			allInstrs(g, visit)
+		}
+	}
+	var scopeGuards func(b *ssa.BasicBlock, depth int) []atom
+	scopeGuards = func(b *ssa.BasicBlock, depth int) []atom {
+		out := guardAtoms(b)
+		fn := b.Parent()
+		if fn == pull || depth > 2 {
+			return out
+		}
+		var sites []*ssa.Call
+		for _, g := range scope {
+			allInstrs(g, func(in ssa.Instruction) {
+				if c, ok := in.(*ssa.Call); ok && staticCallee(c) == fn {
+					sites = append(sites, c)
+				}
+			})
+		}
+		if len(sites) == 1 {
+			out = append(out, scopeGuards(sites[0].Block(), depth+1)...)
+		}
+		return out
+	}
+	allScope(func(in ssa.Instruction) {
 		ta, ok := in.(*ssa.TypeAssert)
 		if !ok || !ta.CommaOk {
 			return
@@ -448,7 +484,7 @@ func checkC09(w *World) {
 		good := true
 		detail := ""
 		nret := 0
-		for _, b := range pull.Blocks {
+		for _, b := range ta.Parent().Blocks {
 			under := false
 			for _, a := range guardAtoms(b) {
 				if ex, ok := a.V.(*ssa.Extract); ok && ex.Tuple == ssa.Value(ta) && ex.Index == 1 && a.Pol {
@@ -506,7 +542,7 @@ func checkC09(w *World) {
 		}
 	}
 	// end flag true only when all arms failed
-	allInstrs(pull, func(in ssa.Instruction) {
+	allScope(func(in ssa.Instruction) {
 		ret, ok := in.(*ssa.Return)
 		if !ok || len(ret.Results) != 3 {
 			return
@@ -516,7 +552,10 @@ func checkC09(w *World) {
 			return
 		}
 		failed := 0
-		for _, a := range guardAtoms(ret.Block()) {
+		if in.Parent() != pull && !(len(ret.Results) == 3) {
+			return
+		}
+		for _, a := range scopeGuards(ret.Block(), 0) {
 			if ex, ok := a.V.(*ssa.Extract); ok && ex.Index == 1 && !a.Pol {
 				if ta, ok := ex.Tuple.(*ssa.TypeAssert); ok {
 					if n, ok := types.Unalias(ta.AssertedType).(*types.Named); ok && wantTok[n.Obj().Name()] != "" {
@@ -528,7 +567,7 @@ func checkC09(w *World) {
 		w.check(P, "R09.2", "end event", ret.Pos(), failed == 4 && isNilConst(ret.Results[0]) && isNilConst(ret.Results[2]), fmt.Sprintf("end flag true is returned after %d of the 4 node-producing arms failed", failed))
 	})
 	// every successful return is either (node, false) or (nil, true)
-	allInstrs(pull, func(in ssa.Instruction) {
+	allScope(func(in ssa.Instruction) {
 		ret, ok := in.(*ssa.Return)
 		if !ok || len(ret.Results) != 3 || !isNilConst(ret.Results[2]) {
 			return
@@ -628,13 +667,20 @@ func (w *World) replayOrder(P string, pull *ssa.Function) {
 	type pend struct {
 		listField string
 	}
+	// listOf: v is the test "the replay position is still inside the list": pos < len(list) or len(list) > pos
 	listOf := func(v ssa.Value) string {
 		bo, ok := v.(*ssa.BinOp)
-		if !ok || bo.Op != token.LSS {
+		if !ok {
 			return ""
 		}
-		c, ok := bo.Y.(*ssa.Call)
-		if !ok {
+		var c *ssa.Call
+		switch bo.Op {
+		case token.LSS:
+			c, _ = bo.Y.(*ssa.Call)
+		case token.GTR:
+			c, _ = bo.X.(*ssa.Call)
+		}
+		if c == nil {
 			return ""
 		}
 		if bi, ok := c.Call.Value.(*ssa.Builtin); !ok || bi.Name() != "len" {
@@ -681,9 +727,21 @@ func (w *World) replayOrder(P string, pull *ssa.Function) {
 	w.check(P, "R09.3", "next token only when pending lists are drained", tokenCall.Pos(), drained[nsList] && drained[attrList], fmt.Sprintf("Token() guarded by drained %s: %v, drained %s: %v", nsList, drained[nsList], attrList, drained[attrList]))
 	// attribute replay only when namespaces drained
 	okAttr := false
-	allInstrs(pull, func(in ssa.Instruction) {
+	var rscope []*ssa.Function
+	for g := range staticReach(pull, func(x *ssa.Function) bool { return fnPkgKey(x) == "parser" }) {
+		if fnPkgKey(g) == "parser" {
+			rscope = append(rscope, g)
+		}
+	}
+	sortFuncs(rscope)
+	forScope := func(visit func(ssa.Instruction)) {
+		for _, g := range rscope {
+			allInstrs(g, visit)
+		}
+	}
+	forScope(func(in ssa.Instruction) {
 		ret, ok := in.(*ssa.Return)
-		if !ok || len(ret.Results) != 3 {
+		if !ok || len(ret.Results) < 1 {
 			return
 		}
 		mi, ok := ret.Results[0].(*ssa.MakeInterface)
